@@ -36,7 +36,7 @@ def prepare(verif_seed, index):
 def run_one(verif_seed, index, tier='quick'):
     seed = rngm.run_seed(verif_seed, PROP, index)
     useed = rngm.derive('universe', verif_seed, PROP, index // C.RUNS_PER_UNIVERSE)
-    pl = C.Planner(seed, useed, PROP)
+    pl = C.Planner(seed, useed, PROP, scale=C.scale_of(tier, index, C.RUNS_PER_UNIVERSE))
     plan = pl.plan(index, verif_seed)
     if plan is None:
         return {'index': index, 'empty': True}
